@@ -514,7 +514,9 @@ func (d *Datastore) TransactionCancel(ctx context.Context, transactionId string)
 func loadIntendedStoreHighestPrio(ctx context.Context, tscc tree.TreeCacheClient, r *tree.RootEntry, pathKeySet *tree.PathSet, skipIntents []string) error {
 
 	// Get all entries of the already existing intent
-	cacheEntries := tscc.ReadCurrentUpdatesHighestPriorities(ctx, pathKeySet.GetPaths(), 2)
+	// the entries of the intents that take part in the transaction are skipped further down, so to still end up
+	// with the highest priority alternative for each path, one more priority than intents to be skipped is required.
+	cacheEntries := tscc.ReadCurrentUpdatesHighestPriorities(ctx, pathKeySet.GetPaths(), uint64(len(skipIntents))+1)
 
 	flags := tree.NewUpdateInsertFlags()
 
